@@ -226,6 +226,16 @@ def run_wrappers(rng, obs):
     if cons: kw['constraints'] = K.make_constraint(cons)
     if pen: kw['penalty'] = K.make_penalty(pen)
     if nested: kw['solver'] = {'nm': NelderMeadSimplexSolver, 'powell': PowellDirectionalSolver}[nested]
+    inst_limit = None
+    if nested and not cons and not pen and rng.random() < 0.45:
+        # (only with plain ranges: a configured instance is handed the ensemble-decorated cost, so with constraints it reports unconstrained points - same mechanism as the recorded counting finding)
+        # the nested solver as a configured instance that carries its own generation limit, the wrapper's limits left alone: the members
+        # run under the instance's limit, and the warnflag must say so
+        inst_limit = rng.choice([2, 5])
+        inst = kw['solver'](dim); inst.SetEvaluationLimits(generations=inst_limit)
+        kw['solver'] = inst; kw['maxiter'] = None; kw['maxfun'] = None; maxiter, maxfun = inst_limit, None
+        kw['ftol'] = 1e-12          # (so that the members do not converge before their limit)
+        obs.desc['nested_instance_generation_limit'] = inst_limit; obs.event('nested_instance_with_its_own_limit')
     fn = {'lattice': lattice, 'buckshot': buckshot, 'sparsity': sparsity}[which]
     if which == 'sparsity' and rng.random() < 0.4: kw['rtol'] = rng.choice([0.5, -0.5]); obs.desc['rtol'] = kw['rtol']
     out = fn(probe, dim, **({'nbins': n} if which == 'lattice' else {'npts': n}), **kw)
@@ -233,7 +243,8 @@ def run_wrappers(rng, obs):
     ck = lambda ok, what, **k2: obs.check(ok, 'ens:' + what, ensemble=which, nested=nested, map='default', monitors='wrapper', restart=False, **k2)
     ck(not bad_box, 'every cost call of every member lies inside the strict ranges', first=bad_box, through='bounds= keyword')
     ck(not bad_cons, 'every cost call of every member satisfies the constraints', first=bad_cons, cons=cons, through='constraints= keyword')
-    ck(allcalls == probe.n, 'total evaluation count equals the number of real cost calls', total=allcalls, real=probe.n, step=False, through='allfuncalls of the wrapper')
+    ck(allcalls == probe.n, 'total evaluation count equals the number of real cost calls', total=allcalls, real=probe.n, step=False, through='allfuncalls of the wrapper',
+       nested_given_as_configured_instance=inst_limit is not None, ranges_in_force=True)
     if math.isfinite(fopt):
         objs = [K.fnum(c[1]) + refpen(list(c[0])) for c in probe.calls]
         ck(abs(fopt - min(objs)) <= 1e-12 * max(1.0, abs(fopt)), 'reported best energy is the minimum of the member bests', observed=fopt, member_bests=[min(objs)],
